@@ -160,6 +160,8 @@ def audit(prop_module, namespace):
             if FORBIDDEN.search(s):
                 problems.append("%s:%d forbidden token: %s" % (mod, i, line.strip()))
     src = os.path.join(LEAN, *prop_module.split(".")) + ".lean"
+    if not os.path.exists(src):
+        return 0, 0, {}, ["property module %s does not exist" % prop_module]
     names = re.findall(r"^theorem\s+([\w.']+)", open(src).read(), re.M)
     tmp = os.path.join(BUILD, "audit_%s.lean" % prop_module.replace(".", "_"))
     with open(tmp, "w") as f:
@@ -373,6 +375,15 @@ class Report:
             t = ln.split()
             if t:
                 self.cov["op_histogram"][t[0]] = self.cov["op_histogram"].get(t[0], 0) + 1
+        oc = self.cov.setdefault("outcome_histogram", {})
+        for out in (case.impl or []):
+            o = out.split()
+            if len(o) >= 2 and o[0] in ("create", "update", "delete", "batch", "compact", "watch", "list", "stream"):
+                tag = o[1] if (o[1].isalpha() and len(o[1]) < 12) else "data"
+                if o[0] == "stream":
+                    tag = "error-terminated" if " belowfloor " in out or " other " in out else ("empty" if o[1] == "end" else "data")
+                key = o[0] + " " + tag + ((" " + o[2]) if o[1] == "err" and len(o) > 2 else "")
+                oc[key] = oc.get(key, 0) + 1
         if len(self.cov["samples"]) < 3:
             self.cov["samples"].append({"suite": case.suite, "script": case.lines[:40],
                                         "impl_transcript": (case.impl or [])[:40]})
@@ -404,3 +415,26 @@ class Report:
             print("VIOLATION property=%s replay=%s%s" % (self.prop, replay, " no-failing-input-found" if no_input else ""))
         sys.stdout.flush()
         return 1 if self.violations else 0
+
+
+def handle_oracle_hit(rep, prop, tag, case, desc, sig, shrink_fn=None):
+    """An oracle flagged a concrete failing input: known finding (listed by signature) or violation."""
+    for f in load_known().get("findings", []):
+        if f.get("property") == prop and f.get("signature") == sig and f.get("status") == "known":
+            rep.known_finding("%s [signature %s]" % (f.get("what", desc), sig))
+            return False
+    if shrink_fn is not None:
+        try:
+            case = shrink(case, shrink_fn)
+        except Exception:
+            pass
+    rep.violation(write_replay(prop, tag, case=case, text="# oracle: " + desc))
+    return True
+
+
+def handle_diff(rep, prop, tag, case):
+    """Model and implementation disagree but no oracle found a failing input."""
+    rep.cov["disagreements_checked"] += 1
+    rep.violation(write_replay(prop, tag, case=case,
+                               text="# correspondence broken: the Lean model (KB.Backend / kbmodel) and the implementation differ; "
+                                    "the theorems of %s are no longer tied to this code" % prop), no_input=True)
